@@ -1671,6 +1671,8 @@ Section Completes.
   (* whatever the value and the configuration, the iteration ends with the end of the document *)
   Theorem iterate_completes_value v : exists es s', fst (rwalk cfg dups v) st0 = (es, Some s').
   Proof. destruct (completes_all v) as [H _]. apply H. Qed.
+  Theorem completes_from v s : exists es s', fst (rwalk cfg dups v) s = (es, Some s').
+  Proof. destruct (completes_all v) as [H _]. apply H. Qed.
 End Completes.
 
 Theorem iterate_completes cfg root : snd (iterate_outcome cfg root) = true.
@@ -1678,6 +1680,27 @@ Proof.
   destruct root as [v|]; [|reflexivity].
   unfold iterate_outcome, value_outcome. destruct (c_recursion cfg); [|reflexivity].
   unfold recursive. destruct (iterate_completes_value cfg (dups_of v) v) as [es [s' ->]]. reflexivity.
+Qed.
+
+(* the first document of a reused iterator is the document of a fresh one *)
+Lemma iterate_outcome_from_0 cfg root :
+  let '(es, ok, _) := iterate_outcome_from 0 cfg root in iterate_outcome cfg root = (es, ok).
+Proof.
+  destruct root as [v|]; [|reflexivity].
+  unfold iterate_outcome_from, iterate_outcome, value_outcome.
+  destruct (c_recursion cfg); [|reflexivity].
+  unfold recursive_from, recursive, st0.
+  destruct (fst (rwalk cfg (dups_of v) v) {| named := []; next_marker := 0 |}) as [es [s|]]; reflexivity.
+Qed.
+
+(* a later document (first marker name n) completes like the first one *)
+Lemma iterate_outcome_from_completes n cfg root :
+  let '(_, ok, _) := iterate_outcome_from n cfg root in ok = true.
+Proof.
+  destruct root as [v|]; [|reflexivity].
+  unfold iterate_outcome_from. destruct (c_recursion cfg); [|reflexivity].
+  unfold recursive_from.
+  destruct (completes_from cfg (dups_of v) v {| named := []; next_marker := n |}) as [es [s' ->]]. reflexivity.
 Qed.
 
 (* ========================================================================= *)
